@@ -92,3 +92,20 @@ Example C16_float_model_example :
   VarFloat64.same_floatV (VarFloat64.var_f64 1 [1; 2; nan; 3]%float) 1%float = true /\
   VarFloat64.same_floatV (VarFloat64.var_f64 1 [5]%float) nan = true.
 Proof. vm_compute. repeat split. Qed.
+
+(* ... and its accumulators ARE, bit for bit and for every float64 input, the single-pass group reductions of Model/ReduceFloat.v
+   (nansum, nansum_squares, their common count) - the model C04's stream ties to _group_func_wrap: GroupBy.var is the closed
+   formula over three kernel results, in IEEE arithmetic too. *)
+From GL Require Model.ReduceFloat Proofs.VarFloat64Proofs.
+Theorem C16_float_accumulators_are_the_group_reductions g l :
+  VarFloat64.group_acc l =
+  (fst (ReduceFloat.piece_reduce ReduceFloat.FNanSum g (VarFloat64Proofs.as_rows g l)),
+   fst (ReduceFloat.piece_reduce ReduceFloat.FNanSumSq g (VarFloat64Proofs.as_rows g l)),
+   snd (ReduceFloat.piece_reduce ReduceFloat.FNanSum g (VarFloat64Proofs.as_rows g l))).
+Proof. exact (VarFloat64Proofs.group_acc_is_the_group_reductions g l). Qed.
+Theorem C16_float_sum_and_squares_count_the_same g l :
+  snd (ReduceFloat.piece_reduce ReduceFloat.FNanSum g (VarFloat64Proofs.as_rows g l))
+  = snd (ReduceFloat.piece_reduce ReduceFloat.FNanSumSq g (VarFloat64Proofs.as_rows g l)).
+Proof. exact (VarFloat64Proofs.both_reductions_count_the_same g l). Qed.
+Print Assumptions C16_float_accumulators_are_the_group_reductions.
+Print Assumptions C16_float_sum_and_squares_count_the_same.
